@@ -27,6 +27,10 @@ func c01Opts() ship1Opts {
 }
 
 func setupC01(x *Ctx) {
+	if x.Chance("c01-hub", 0.2) {
+		c01Hub(x)
+		return
+	}
 	s := newShip1(x, c01Opts())
 	x.OnFinal(func() { checkTrustGate(x, s.role, "U") })
 }
